@@ -171,8 +171,14 @@ fn dark_module_score(qr: &QRCode) -> u32 {
 /// - `dark_module_score`: 10 points for each 5% of dark modules away from 50%
 pub fn score(qr: &QRCode, qr_transpose: &QRCode) -> u32 {
     let dark_score = dark_module_score(qr);
+    #[cfg(fast_qr_verif)]
+    crate::verif::point("score.dark");
     let square_score = matrix_score_squares(qr);
+    #[cfg(fast_qr_verif)]
+    crate::verif::point("score.squares");
     let (line_score, col_score, patt_score) = matrix_pattern_and_line(qr, qr_transpose);
 
+    #[cfg(fast_qr_verif)]
+    crate::verif::point("score.lines");
     line_score + patt_score + col_score + dark_score + square_score
 }
